@@ -107,8 +107,6 @@ theorem firstSeq_cons (mf : G → FRes) (g : G) (gs : List G) (fs : List FI) (me
           simp only [hr, FRes.ok.injEq] at heq
           refine Or.inr (Or.inr ⟨rfl, by simp, f2, ?_⟩)
           rw [← heq.2]
-          simp only [firstSeq]
-          exact hr
         | recur n =>
           simp only [firstSeq, hm, if_true] at heq
           simp only [firstSeq] at hr
@@ -286,5 +284,448 @@ theorem matchF_zero_width (c : Cx α)
           simp only at heq
           split at heq <;> simp at heq
         | abort ab => simp at heq
+
+/-! ## every well-formed matcher passes `First` once every rule does -/
+
+def FirstOk (env : Env) (f : Nat) (g : G) : Prop := ∃ fs me, firstF f env g = .ok fs me
+
+theorem FirstOk.mono {env : Env} {f f' : Nat} {g : G} (h : FirstOk env f g) (hle : f ≤ f') :
+    FirstOk env f' g := by
+  obtain ⟨fs, me, h⟩ := h
+  exact ⟨fs, me, firstF_mono f env env g fs me (SubEnv.refl env) h f' hle⟩
+
+theorem firstChoice_ok_of_all (mf : G → FRes) : ∀ (opts : List G),
+    (∀ g ∈ opts, ∃ fs me, mf g = .ok fs me) → ∃ fs me, firstChoice mf opts = .ok fs me := by
+  intro opts
+  induction opts with
+  | nil => intro _; exact ⟨[], false, rfl⟩
+  | cons g gs ih =>
+    intro h
+    obtain ⟨f1, me1, h1⟩ := h g (by simp)
+    obtain ⟨f2, me2, h2⟩ := ih (fun g' hg' => h g' (by simp [hg']))
+    exact ⟨f1 ++ f2, me1 || me2, by simp [firstChoice, h1, h2]⟩
+
+theorem firstSeq_ok_of_all (mf : G → FRes) : ∀ (items : List G),
+    (∀ g ∈ items, ∃ fs me, mf g = .ok fs me) → ∃ fs me, firstSeq mf items = .ok fs me := by
+  intro items
+  induction items with
+  | nil => intro _; exact ⟨[], false, rfl⟩
+  | cons g gs ih =>
+    intro h
+    obtain ⟨f1, me1, h1⟩ := h g (by simp)
+    obtain ⟨f2, me2, h2⟩ := ih (fun g' hg' => h g' (by simp [hg']))
+    cases me1 with
+    | false => exact ⟨f1, false, by simp [firstSeq, h1]⟩
+    | true =>
+      cases gs with
+      | nil => exact ⟨f1, true, by simp [firstSeq, h1]⟩
+      | cons g2 rest =>
+        refine ⟨f1 ++ f2, me2, ?_⟩
+        simp only [firstSeq, h1, if_true]
+        simp only [firstSeq] at h2
+        simp only [h2]
+
+theorem firstOk_of_wf (env : Env) (F : Nat)
+    (hrules : ∀ x b, env.find x = some b → FirstOk env F (.var x)) :
+    ∀ n (g : G), g.size ≤ n → g.wf env = true → FirstOk env (F + g.size) g := by
+  intro n
+  induction n with
+  | zero => intro g hs; have := size_pos g; omega
+  | succ n ih =>
+    intro g hs hwf
+    have hpos := size_pos g
+    obtain ⟨k, hk⟩ : ∃ k, F + g.size = k + 1 := ⟨F + g.size - 1, by omega⟩
+    rw [hk]
+    cases g with
+    | tru => exact ⟨_, _, rfl⟩
+    | ws => exact ⟨_, _, rfl⟩
+    | str q => exact ⟨_, _, rfl⟩
+    | tok k' label => exact ⟨_, _, rfl⟩
+    | lit k' l => exact ⟨_, _, rfl⟩
+    | choice opts stops =>
+      rw [size_choice] at hs hk
+      rw [wf_choice] at hwf
+      unfold FirstOk
+      rw [firstF_choice]
+      apply firstChoice_ok_of_all
+      intro g' hg'
+      have hsz := sizeL_mem g' hg'
+      exact (ih g' (by omega) (wfL_mem hwf g' hg')).mono (by omega)
+    | seq items =>
+      rw [size_seq] at hs hk
+      rw [wf_seq] at hwf
+      simp only [Bool.and_eq_true] at hwf
+      unfold FirstOk
+      rw [firstF_seq]
+      apply firstSeq_ok_of_all
+      intro g' hg'
+      have hsz := sizeL_mem g' hg'
+      exact (ih g' (by omega) (wfL_mem hwf.2 g' hg')).mono (by omega)
+    | rep0 g' =>
+      rw [size_rep0] at hs hk
+      rw [wf_rep0] at hwf
+      obtain ⟨fs, me, h⟩ := (ih g' (by omega) hwf).mono (show F + g'.size ≤ k by omega)
+      exact ⟨fs, true, by rw [firstF_rep0, h]⟩
+    | rep1 g' =>
+      rw [size_rep1] at hs hk
+      rw [wf_rep1] at hwf
+      obtain ⟨fs, me, h⟩ := (ih g' (by omega) hwf).mono (show F + g'.size ≤ k by omega)
+      exact ⟨fs, me, by rw [firstF_rep1, h]⟩
+    | rep01 g' =>
+      rw [size_rep01] at hs hk
+      rw [wf_rep01] at hwf
+      obtain ⟨fs, me, h⟩ := (ih g' (by omega) hwf).mono (show F + g'.size ≤ k by omega)
+      exact ⟨fs, true, by rw [firstF_rep01, h]⟩
+    | adjoin a b =>
+      rw [size_adjoin] at hs hk
+      rw [wf_adjoin] at hwf
+      simp only [Bool.and_eq_true] at hwf
+      obtain ⟨fs, me, h⟩ := (ih a (by omega) hwf.1).mono (show F + a.size ≤ k by omega)
+      exact ⟨fs, false, by rw [firstF_adjoin, h]⟩
+    | var x =>
+      rw [wf_var] at hwf
+      cases hf : env.find x with
+      | none => simp [hf] at hwf
+      | some b =>
+        have := (hrules x b hf).mono (show F ≤ k + 1 by omega)
+        exact this
+
+/-! ## the loops return when every call they make returns -/
+
+theorem seqLoop_term_later (m : G → Nat → Out (V α)) (N i : Nat)
+    (hle : ∀ g p n r l, p ≤ N → m g p = (.ok n r, l) → p + n ≤ N) :
+    ∀ (items : List G) (p : Nat), i < p → p ≤ N →
+    (∀ g ∈ items, ∀ p', i < p' → p' ≤ N → (m g p').1 ≠ .abort .fuel) →
+    (seqLoop m items p).1 ≠ .abort .fuel := by
+  intro items
+  induction items with
+  | nil => intro p _ _ _; simp [seqLoop]
+  | cons g gs ih =>
+    intro p hip hpN h
+    have h1 := h g (by simp) p hip hpN
+    rcases hm : m g p with ⟨r1, l1⟩
+    rw [hm] at h1
+    cases r1 with
+    | ok n1 v1 =>
+      have hle1 := hle g p n1 v1 l1 hpN hm
+      have h2 := ih (p + n1) (by omega) hle1 (fun g' hg' => h g' (by simp [hg']))
+      rcases hr : seqLoop m gs (p + n1) with ⟨r2, l2⟩
+      rw [hr] at h2
+      cases r2 with
+      | ok n2 rs2 => simp [seqLoop, hm, hr]
+      | fail n2 e => simp [seqLoop, hm, hr]
+      | abort a => simpa [seqLoop, hm, hr] using h2
+    | fail n1 e => simp [seqLoop, hm]
+    | abort a => simpa [seqLoop, hm] using h1
+
+theorem seqLoop_term_here (m : G → Nat → Out (V α)) (mf : G → FRes) (N i : Nat) (hi : i ≤ N)
+    (hle : ∀ g p n r l, p ≤ N → m g p = (.ok n r, l) → p + n ≤ N) :
+    ∀ (items : List G),
+    (∀ g ∈ items, (∃ fs me, mf g = .ok fs me) → (m g i).1 ≠ .abort .fuel) →
+    (∀ g ∈ items, ∀ p', i < p' → p' ≤ N → (m g p').1 ≠ .abort .fuel) →
+    (∀ g ∈ items, ∀ r l, m g i = (.ok 0 r, l) → ∀ fs me, mf g = .ok fs me → me = true) →
+    (∃ fs me, firstSeq mf items = .ok fs me) →
+    (seqLoop m items i).1 ≠ .abort .fuel := by
+  intro items
+  induction items with
+  | nil => intro _ _ _ _; simp [seqLoop]
+  | cons g gs ih =>
+    intro hhere hlater hzero hfs
+    obtain ⟨fs, me, hfs⟩ := hfs
+    obtain ⟨f1, me1, hmf, hcase⟩ := firstSeq_cons mf g gs fs me hfs
+    have h1 := hhere g (by simp) ⟨f1, me1, hmf⟩
+    rcases hm : m g i with ⟨r1, l1⟩
+    rw [hm] at h1
+    cases r1 with
+    | ok n1 v1 =>
+      have hle1 := hle g i n1 v1 l1 hi hm
+      have h2 : (seqLoop m gs (i + n1)).1 ≠ .abort .fuel := by
+        by_cases hn : n1 = 0
+        · subst hn
+          have hme1 : me1 = true := hzero g (by simp) v1 l1 hm f1 me1 hmf
+          rcases hcase with ⟨h1', _⟩ | ⟨_, hnil, _⟩ | ⟨_, _, f2, h4⟩
+          · rw [hme1] at h1'; cases h1'
+          · subst hnil; simp [seqLoop]
+          · exact ih (fun g' hg' => hhere g' (by simp [hg'])) (fun g' hg' => hlater g' (by simp [hg']))
+              (fun g' hg' => hzero g' (by simp [hg'])) ⟨f2, me, h4⟩
+        · exact seqLoop_term_later m N i hle gs (i + n1) (by omega) hle1
+            (fun g' hg' => hlater g' (by simp [hg']))
+      rcases hr : seqLoop m gs (i + n1) with ⟨r2, l2⟩
+      rw [hr] at h2
+      cases r2 with
+      | ok n2 rs2 => simp [seqLoop, hm, hr]
+      | fail n2 e => simp [seqLoop, hm, hr]
+      | abort a => simpa [seqLoop, hm, hr] using h2
+    | fail n1 e => simp [seqLoop, hm]
+    | abort a => simpa [seqLoop, hm] using h1
+
+theorem repLoop_term (m : Nat → Out (V α)) (N : Nat)
+    (hle : ∀ p n r l, p ≤ N → m p = (.ok n r, l) → p + n ≤ N) :
+    ∀ (k p : Nat), p ≤ N → N - p < k →
+    (∀ p', p ≤ p' → p' ≤ N → (m p').1 ≠ .abort .fuel) →
+    (repLoop m N k p).1 ≠ .abort .fuel := by
+  intro k
+  induction k with
+  | zero => intro p _ h; omega
+  | succ k ih =>
+    intro p hp hk h
+    have h1 := h p (Nat.le_refl p) hp
+    rcases hm : m p with ⟨r1, l1⟩
+    rw [hm] at h1
+    cases r1 with
+    | ok n1 v1 =>
+      by_cases hn : n1 = 0
+      · simp [repLoop, hm, hn]
+      · have hle1 := hle p n1 v1 l1 hp hm
+        have h2 := ih (p + n1) hle1 (by omega) (fun p' hp' hp'N => h p' (by omega) hp'N)
+        rcases hr : repLoop m N k (p + n1) with ⟨r2, l2⟩
+        rw [hr] at h2
+        cases r2 with
+        | ok n2 rs2 => simp [repLoop, hm, hn, hr]
+        | fail n2 e => simp [repLoop, hm, hn, hr]
+        | abort a => simpa [repLoop, hm, hn, hr] using h2
+    | fail n1 e => simp [repLoop, hm]
+    | abort a => simpa [repLoop, hm] using h1
+
+theorem choiceLoop_term (m : G → Out (V α)) : ∀ (opts : List G) stops nMax errMax multi,
+    (∀ g ∈ opts, (m g).1 ≠ .abort .fuel) →
+    (choiceLoop m opts stops nMax errMax multi).1 ≠ .abort .fuel := by
+  intro opts
+  induction opts with
+  | nil => intros; simp [choiceLoop]
+  | cons g gs ih =>
+    intro stops nMax errMax multi h
+    have h1 := h g (by simp)
+    rcases hm : m g with ⟨r1, l1⟩
+    rw [hm] at h1
+    cases r1 with
+    | ok n v => simp [choiceLoop, hm]
+    | abort a => simpa [choiceLoop, hm] using h1
+    | fail n e =>
+      simp only [choiceLoop, hm]
+      have hrest := fun st nm em mu => ih st nm em mu (fun g' hg' => h g' (by simp [hg']))
+      by_cases hn : n > 0
+      · simp only [hn, if_true]
+        cases stops with
+        | nil => simp
+        | cons s st =>
+          cases s with
+          | true => simp
+          | false =>
+            simp only [Bool.false_eq_true, if_false]
+            exact hrest _ _ _ _
+      · simp only [hn, if_false]
+        exact hrest _ _ _ _
+
+/-! ## the fuel bound -/
+
+/-- What the compile-time checks (and the shape of compiled grammars) provide. -/
+structure TermHyp (c : Cx α) (F S : Nat) : Prop where
+  rules : ∀ x b, c.env.find x = some b → FirstOk c.env F (.var x)
+  wf : ∀ x b, c.env.find x = some b → b.wf c.env = true
+  size : ∀ x b, c.env.find x = some b → b.size ≤ S
+
+theorem firstOk_pos {env : Env} {f : Nat} {g : G} (h : FirstOk env f g) : 1 ≤ f := by
+  cases f with
+  | zero => obtain ⟨fs, me, h⟩ := h; simp [firstF_zero] at h
+  | succ f => omega
+
+theorem firstOk_sub {env : Env} {f : Nat} {g : G} {me : Bool} {fs' : List FI} {me' : Bool}
+    (h : (match firstF f env g with | .ok fs _ => FRes.ok fs me | o => o) = .ok fs' me') :
+    FirstOk env f g := by
+  cases hm : firstF f env g with
+  | ok f1 me1 => exact ⟨f1, me1, hm⟩
+  | recur n => rw [hm] at h; simp at h
+  | fuel => rw [hm] at h; simp at h
+
+theorem matchF_terminates_aux (c : Cx α) (F S : Nat) (H : TermHyp c F S) :
+    ∀ r f g i, g.wf c.env = true → g.size ≤ S → i ≤ c.N → c.N - i ≤ r → FirstOk c.env f g →
+      (matchF c (r * (F + S + 1) + f) g i).1 ≠ .abort .fuel := by
+  intro r
+  induction r using Nat.strongRecOn with
+  | _ r ihr =>
+  have hlater : ∀ f g' p, g'.wf c.env = true → g'.size ≤ S → p ≤ c.N → c.N - p < r →
+      (matchF c (r * (F + S + 1) + f) g' p).1 ≠ .abort .fuel := by
+    intro f g' p hwf hsz hp hlt
+    obtain ⟨r', rfl⟩ : ∃ r', r = r' + 1 := ⟨r - 1, by omega⟩
+    have hok : FirstOk c.env (F + S) g' :=
+      (firstOk_of_wf c.env F H.rules g'.size g' (Nat.le_refl _) hwf).mono (by omega)
+    have h1 := ihr r' (by omega) (F + S) g' p hwf hsz hp (by omega) hok
+    have hle : r' * (F + S + 1) + (F + S) ≤ (r' + 1) * (F + S + 1) + f := by
+      rw [Nat.succ_mul]; omega
+    rw [matchF_mono_le c g' p hle h1]
+    exact h1
+  intro f
+  induction f with
+  | zero => intro g i _ _ _ _ hok; have := firstOk_pos hok; omega
+  | succ f ihf =>
+    intro g i hwf hsz hi hr hok
+    show (matchF c ((r * (F + S + 1) + f) + 1) g i).1 ≠ .abort .fuel
+    have hle : ∀ g p n v l, p ≤ c.N → matchF c (r * (F + S + 1) + f) g p = (.ok n v, l) → p + n ≤ c.N :=
+      fun g p n v l hp h => matchF_le c _ g p n v l hp h
+    -- a call at a position ≥ i: here by the inner induction, later by the outer one
+    have hany : ∀ g' p, g'.wf c.env = true → g'.size ≤ S → FirstOk c.env f g' → i ≤ p → p ≤ c.N →
+        (matchF c (r * (F + S + 1) + f) g' p).1 ≠ .abort .fuel := by
+      intro g' p hwf' hsz' hok' hip hpN
+      by_cases hpi : p = i
+      · subst hpi; exact ihf g' p hwf' hsz' hpN hr hok'
+      · exact hlater f g' p hwf' hsz' hpN (by omega)
+    cases g with
+    | tru => simp [matchF]
+    | ws =>
+      simp only [matchF]
+      repeat' split
+      all_goals simp
+    | str q =>
+      simp only [matchF]
+      repeat' split
+      all_goals simp
+    | tok k label =>
+      simp only [matchF]
+      repeat' split
+      all_goals simp
+    | lit k lt =>
+      simp only [matchF]
+      repeat' split
+      all_goals simp
+    | choice opts stops =>
+      rw [matchF_choice]
+      obtain ⟨fs, me, hfs⟩ := hok
+      rw [firstF_choice] at hfs
+      rw [wf_choice] at hwf
+      rw [size_choice] at hsz
+      apply choiceLoop_term
+      intro g' hg'
+      obtain ⟨f1, me1, h1, _⟩ := firstChoice_mem _ opts fs me hfs g' hg'
+      have := sizeL_mem g' hg'
+      exact ihf g' i (wfL_mem hwf g' hg') (by omega) hi hr ⟨f1, me1, h1⟩
+    | seq items =>
+      rw [matchF_seq]
+      intro hc
+      rw [mapOut_fst_ne_fuel] at hc
+      revert hc
+      obtain ⟨fs, me, hfs⟩ := hok
+      rw [firstF_seq] at hfs
+      rw [wf_seq] at hwf
+      simp only [Bool.and_eq_true] at hwf
+      rw [size_seq] at hsz
+      apply seqLoop_term_here _ (fun g => firstF f c.env g) c.N i hi hle items
+      · intro g' hg' hok'
+        have := sizeL_mem g' hg'
+        exact ihf g' i (wfL_mem hwf.2 g' hg') (by omega) hi hr hok'
+      · intro g' hg' p' hip hpN
+        have := sizeL_mem g' hg'
+        exact hlater f g' p' (wfL_mem hwf.2 g' hg') (by omega) hpN (by omega)
+      · intro g' hg' v l hm fs' me' hmf
+        exact matchF_zero_width c H.wf _ g' i v l (wfL_mem hwf.2 g' hg') hm f c.env fs' me'
+          (SubEnv.refl _) hmf
+      · exact ⟨fs, me, hfs⟩
+    | rep0 g' =>
+      rw [matchF_rep0]
+      intro hc
+      rw [mapOut_fst_ne_fuel] at hc
+      revert hc
+      obtain ⟨fs, me, hfs⟩ := hok
+      rw [firstF_rep0] at hfs
+      have hok' : FirstOk c.env f g' := firstOk_sub hfs
+      have hf1 := firstOk_pos hok'
+      rw [wf_rep0] at hwf
+      rw [size_rep0] at hsz
+      have hrK : r ≤ r * (F + S + 1) := Nat.le_mul_of_pos_right r (by omega)
+      apply repLoop_term _ c.N (fun p n v l hp h => hle g' p n v l hp h) _ i hi (by omega)
+      intro p' hip hpN
+      exact hany g' p' hwf (by omega) hok' hip hpN
+    | rep1 g' =>
+      rw [matchF_rep1]
+      obtain ⟨fs, me, hfs⟩ := hok
+      rw [firstF_rep1] at hfs
+      have hok' : FirstOk c.env f g' := ⟨fs, me, hfs⟩
+      have hf1 := firstOk_pos hok'
+      rw [wf_rep1] at hwf
+      rw [size_rep1] at hsz
+      have hrK : r ≤ r * (F + S + 1) := Nat.le_mul_of_pos_right r (by omega)
+      have h1 := ihf g' i hwf (by omega) hi hr hok'
+      rcases hm : matchF c (r * (F + S + 1) + f) g' i with ⟨r1, l1⟩
+      rw [hm] at h1
+      cases r1 with
+      | ok n1 v1 =>
+        have hle1 := hle g' i n1 v1 l1 hi hm
+        have h2 := repLoop_term (fun p => matchF c (r * (F + S + 1) + f) g' p) c.N
+          (fun p n v l hp h => hle g' p n v l hp h) (r * (F + S + 1) + f) (i + n1) hle1 (by omega)
+          (fun p' hip hpN => hany g' p' hwf (by omega) hok' (by omega) hpN)
+        simp only
+        rcases hr2 : repLoop (fun p => matchF c (r * (F + S + 1) + f) g' p) c.N
+          (r * (F + S + 1) + f) (i + n1) with ⟨r2, l2⟩
+        rw [hr2] at h2
+        cases r2 with
+        | ok n2 rs2 => simp
+        | fail n2 e => simp
+        | abort a => simpa using h2
+      | fail n1 e => simp
+      | abort a => simpa using h1
+    | rep01 g' =>
+      rw [matchF_rep01]
+      obtain ⟨fs, me, hfs⟩ := hok
+      rw [firstF_rep01] at hfs
+      have hok' : FirstOk c.env f g' := firstOk_sub hfs
+      rw [wf_rep01] at hwf
+      rw [size_rep01] at hsz
+      have h1 := ihf g' i hwf (by omega) hi hr hok'
+      rcases hm : matchF c (r * (F + S + 1) + f) g' i with ⟨r1, l1⟩
+      rw [hm] at h1
+      cases r1 with
+      | ok n1 v1 => simp
+      | fail n1 e => simp
+      | abort a => simpa using h1
+    | adjoin a b =>
+      rw [matchF_adjoin]
+      obtain ⟨fs, me, hfs⟩ := hok
+      rw [firstF_adjoin] at hfs
+      have hok' : FirstOk c.env f a := firstOk_sub hfs
+      rw [wf_adjoin] at hwf
+      simp only [Bool.and_eq_true] at hwf
+      rw [size_adjoin] at hsz
+      have h1 := ihf a i hwf.1 (by omega) hi hr hok'
+      rcases hm : matchF c (r * (F + S + 1) + f) a i with ⟨r1, l1⟩
+      rw [hm] at h1
+      cases r1 with
+      | ok n1 v1 =>
+        have hle1 := hle a i n1 v1 l1 hi hm
+        simp only
+        by_cases hn : n1 = 0
+        · simp [hn]
+        · simp only [hn, if_false]
+          have h2 := hlater f b (i + n1) hwf.2 (by omega) hle1 (by omega)
+          rcases hb : matchF c (r * (F + S + 1) + f) b (i + n1) with ⟨r2, l2⟩
+          rw [hb] at h2
+          cases r2 with
+          | ok n2 v2 =>
+            simp only
+            repeat' split
+            all_goals simp
+          | fail n2 e => simp
+          | abort ab => simpa using h2
+      | fail n1 e => simp
+      | abort ab => simpa using h1
+    | var x =>
+      rw [matchF_var]
+      cases hf : c.env.find x with
+      | none => simp
+      | some body =>
+        simp only
+        obtain ⟨fs, me, hfs⟩ := hok
+        rw [firstF_var, hf] at hfs
+        simp only at hfs
+        have hok' : FirstOk c.env f body :=
+          ⟨fs, me, firstF_mono f _ c.env body fs me (SubEnv.filter_self c.env x) hfs f (Nat.le_refl f)⟩
+        have h1 := ihf body i (H.wf x body hf) (H.size x body hf) hi hr hok'
+        rcases hm : matchF c (r * (F + S + 1) + f) body i with ⟨r1, l1⟩
+        rw [hm] at h1
+        cases r1 with
+        | ok n1 v1 => simp
+        | fail n1 e =>
+          simp only
+          split <;> simp
+        | abort ab => simpa using h1
 
 end GopModel.Tpl
